@@ -141,7 +141,9 @@ class GateReplacer(Visitor):
         new_parameters = {
             name: self.visit(param) for name, param in gate.parameters.items()
         }
-        new_gate = GateStatement(gate.gate_def, new_parameters)
+        # Call the definition so that the substituted arguments are
+        # checked against the kinds of its parameters.
+        new_gate = gate.gate_def(**new_parameters)
         return replace_gate(new_gate, self.macros)
 
     def visit_Parameter(self, param: Parameter):
